@@ -554,9 +554,9 @@ SPECS["C06"] = dict(
 
 def c14_jobs(tier):
     if tier == "quick":
-        return [dict(harness="c06_poison", pattern=r"^fault/.*/faults1$|^fault-B/", label="single operator fault at every application (A operator; B product / B solve of a generalized problem)", deadline=200, sanitize=True),
+        return [dict(harness="c06_poison", pattern=r"^fault/.*/faults1$|^fault-B/|^fault-shift/", label="single operator fault at every application (A operator; B product / B solve of a generalized problem; shift-solve operator of the shift-and-invert solvers)", deadline=200, sanitize=True),
                 dict(harness="c06_poison", pattern=r"^reuse/.*/shape[12]$", label="states an interrupted init()/compute() can leave (poisoned)", deadline=200)]
-    return [dict(harness="c06_poison", pattern=r"^fault/|^fault-B/", label="single and double operator faults at every application", deadline=900, sanitize=True),
+    return [dict(harness="c06_poison", pattern=r"^fault/|^fault-B/|^fault-shift/", label="single and double operator faults at every application", deadline=900, sanitize=True),
             dict(harness="c06_poison", pattern=r"^reuse/", label="poisoned states", deadline=300, sanitize=True)]
 
 
@@ -568,10 +568,10 @@ SPECS["C14"] = dict(
                  "compute() on the SAME solver object returns eigenvalues, eigenvectors, iteration and operation counts bit-identical to a solver that never saw the fault. In addition (reduction to C06): every "
                  "state an interrupted init()/compute() can leave - including the never-initialised shape when the very first init() threw - is an instance of the poisoned pre-states, from which "
                  "init();compute() is shown to be independent of the poison."),
-    functions=["SymEigsSolver / GenEigsSolver init, compute, restart with the real Lanczos / Arnoldi (exception crossing factorize_from, expand_basis, init, restart)", "ArnoldiOp::perform_op"],
-    bounds={"quick": {"fault positions": "every application of the fault-free run (22-25 symmetric, 11 general)", "operators": "Laplacian, block diagonal (symmetric), integer matrix (general), n=6"},
+    functions=["SymEigsSolver / GenEigsSolver / SymEigsShiftSolver / GenEigsRealShiftSolver init, compute, restart with the real Lanczos / Arnoldi (exception crossing factorize_from, expand_basis, init, restart)", "ArnoldiOp::perform_op"],
+    bounds={"quick": {"fault positions": "every application of the fault-free run (22-25 symmetric, 11 general)", "operators": "Laplacian, block diagonal (symmetric), integer matrix (general), n=6; SymEigsShiftSolver (Laplacian) and GenEigsRealShiftSolver (integer matrix) with sigma = 0.3"},
             "thorough": {"fault positions": "all single faults and all ordered pairs"}},
-    outside=["pairs of faults in the B-operator", "SparseRegularInverse::solve throwing through CG (library path)", "shift-and-invert / SVD solver classes"],
+    outside=["pairs of faults in the B-operator and in the shift-solve operators", "SparseRegularInverse::solve throwing through CG (library path)", "SVD / complex-shift / generalized shift solver classes"],
     assumptions=["the operator is otherwise deterministic"],
     policy=dict(events="violation", allow_cut=False, worker_died_is_violation=True),
     technique="fault position as a symbolic choice enumerated by the path explorer on the real solver; sanitizers + bit-wise comparison with the fault-free baseline; poisoned-state independence",
